@@ -220,14 +220,15 @@ class Ctx:
         for what, p in reported[:20]:
             print("VIOLATION property=%s replay=%s" % (self.prop, p))
             log("  ", what[:600])
-        shutil.rmtree(self.work, ignore_errors=True)
+        if os.environ.get("VERIF_KEEP") != "1":
+            shutil.rmtree(self.work, ignore_errors=True)
         return 1 if reported else 0
 
 
 class TLCResult:
     def __init__(self, code, outp, wall, label):
         self.code, self.outp, self.wall, self.label = code, outp, wall, label
-        self.generated = self.distinct = 0
+        self.generated = self.distinct = self.depth = 0
         self.tagged = {}
         self.action_cov = {}
         self.errors = []
@@ -242,6 +243,9 @@ class TLCResult:
                 m = re.match(r"^(\d+) states generated, (\d+) distinct states found", line)
                 if m:
                     self.generated, self.distinct = int(m.group(1)), int(m.group(2))
+                m = re.match(r"^The depth of the complete state graph search is (\d+)", line)
+                if m:
+                    self.depth = int(m.group(1))
                 m = re.match(r"^<(\w+) line \d+, col \d+ to line \d+, col \d+ of module (\w+)>: (\d+):(\d+)", line)
                 if m:
                     self.action_cov[m.group(2) + "." + m.group(1)] = int(m.group(4))
